@@ -16,14 +16,15 @@ def families(ctx):
     return [
         # name, N, cfg(n, maxtime, budget, faults, toggles, removal, remotes, histmax, maxatt, crashes, startby)
         ("race3", 3, g(3, 3, 1, "NoFaults", 0, "FALSE", "RemotesNone", 60, 2, "FALSE", 1)),
-        ("mix3", 3, g(3, 16, 2, "ReadFaults", 2, "FALSE", "RemotesSome", 80, 3, "TRUE", 16)),
-        ("pair", 2, g(2, 16, 2, "ReadFaults", 1, "FALSE", "RemotesSome", 90, 2, "TRUE", 14)),
-        ("stale2", 2, g(2, 16, 2, "NoFaults", 0, "FALSE", "RemotesSome", 90, 2, "TRUE", 2)),
+        ("mix3", 3, g(3, 16, 1, "ReadFaults", 2, "FALSE", "RemotesSome", 80, 3, "TRUE", 16)),
+        ("pair", 2, g(2, 16, 1, "ReadFaults", 1, "FALSE", "RemotesSome", 90, 2, "TRUE", 14)),
+        ("rem2", 2, g(2, 6, 1, "NoFaults", 0, "FALSE", "RemotesSome", 50, 2, "TRUE", 6)),
+        ("stale2", 2, g(2, 16, 1, "NoFaults", 0, "FALSE", "RemotesSome", 90, 2, "TRUE", 2)),
     ]
 
 
 def run(ctx):
-    per_family = ctx.pick(90, 1500)
+    per_family = ctx.pick(75, 1200)
     with cf.ThreadPoolExecutor(max_workers=2) as ex:
         fd = ex.submit(lc.design_runs, ctx, ctx.pick(["q_acq", "q_hold"], ["acq3", "acq2", "hold2", "hold1"]),
                        {"acq2_norecheck": ["InvExclusion"]})
